@@ -122,3 +122,119 @@ func setUintField(ptr any, name string, v uint64) {
 		f.SetInt(int64(v))
 	}
 }
+
+// ---- reflective access to the internals of the code under test: the harness
+// keeps compiling (and reading the same facts) when a field changes its type
+
+func fieldOf(obj any, name string) (reflect.Value, bool) {
+	v := reflect.ValueOf(obj)
+	for v.Kind() == reflect.Ptr {
+		if v.IsNil() {
+			return reflect.Value{}, false
+		}
+		v = v.Elem()
+	}
+	if v.Kind() != reflect.Struct {
+		return reflect.Value{}, false
+	}
+	f := v.FieldByName(name)
+	if !f.IsValid() || !f.CanAddr() {
+		return reflect.Value{}, false
+	}
+	return reflect.NewAt(f.Type(), unsafe.Pointer(f.UnsafeAddr())).Elem(), true
+}
+
+// withLock runs fn while holding the lock in field name of obj (any type with
+// Lock / Unlock methods); without such a field fn just runs.
+func withLock(obj any, name string, fn func()) {
+	if f, ok := fieldOf(obj, name); ok {
+		if l, ok := f.Addr().Interface().(interface {
+			Lock()
+			Unlock()
+		}); ok {
+			l.Lock()
+			defer l.Unlock()
+		}
+	}
+	fn()
+}
+
+// lenField is the number of elements of a map / slice / channel field (0 if absent).
+func lenField(obj any, name string) int {
+	f, ok := fieldOf(obj, name)
+	if !ok {
+		return 0
+	}
+	switch f.Kind() {
+	case reflect.Map, reflect.Slice, reflect.Array, reflect.Chan:
+		return f.Len()
+	}
+	return 0
+}
+
+// elemsIn lists what a container field holds (map keys and values, slice elements)
+// that is of type T.
+func elemsIn[T any](obj any, name string) []T {
+	f, ok := fieldOf(obj, name)
+	if !ok {
+		return nil
+	}
+	var out []T
+	add := func(v reflect.Value) {
+		if v.CanInterface() {
+			if x, ok := v.Interface().(T); ok && !(v.Kind() == reflect.Ptr && v.IsNil()) {
+				out = append(out, x)
+			}
+		}
+	}
+	switch f.Kind() {
+	case reflect.Map:
+		for it := f.MapRange(); it.Next(); {
+			add(it.Key())
+			add(it.Value())
+		}
+	case reflect.Slice, reflect.Array:
+		for i := 0; i < f.Len(); i++ {
+			add(f.Index(i))
+		}
+	}
+	return out
+}
+
+// occupyMapKey puts a fresh zero-ish value (a buffered channel for channel
+// elements) under key k of a map field, whatever the key's integer width.
+func occupyMapKey(obj any, name string, k uint64) {
+	f, ok := fieldOf(obj, name)
+	if !ok || f.Kind() != reflect.Map {
+		return
+	}
+	kv := reflect.New(f.Type().Key()).Elem()
+	switch kv.Kind() {
+	case reflect.Uint, reflect.Uint8, reflect.Uint16, reflect.Uint32, reflect.Uint64:
+		kv.SetUint(k)
+	case reflect.Int, reflect.Int8, reflect.Int16, reflect.Int32, reflect.Int64:
+		kv.SetInt(int64(k))
+	default:
+		return
+	}
+	et := f.Type().Elem()
+	ev := reflect.Zero(et)
+	if et.Kind() == reflect.Chan {
+		ev = reflect.MakeChan(et, 1)
+	}
+	if f.IsNil() {
+		f.Set(reflect.MakeMap(f.Type()))
+	}
+	f.SetMapIndex(kv, ev)
+}
+
+// chanFieldClosed reports whether the channel in field name of obj is closed
+// (false if there is no such channel field).
+func chanFieldClosed(obj any, name string) bool {
+	f, ok := fieldOf(obj, name)
+	if !ok || f.Kind() != reflect.Chan || f.IsNil() {
+		return false
+	}
+	x, ok := f.TryRecv() // would block: invalid x; closed: zero x, ok == false
+	return x.IsValid() && !ok
+}
